@@ -213,10 +213,47 @@ func checkRefreshFailure(c *fw.Ctx, up *ssa.Function) {
 	}
 }
 
+// checkNoInPlaceRefresh: the cached contents are replaced by freshly built values. A refresh that
+// decodes into the cached object itself (its address handed to a loader) keeps what the new
+// event does not mention - entries of the users / events maps of the previous power levels -
+// so the verdict depends on which event the checker saw before.
+func checkNoInPlaceRefresh(c *fw.Ctx, up *ssa.Function) {
+	rule := "4 update"
+	construct := "a cached content is replaced by a freshly built value, not filled in place"
+	bad := ""
+	for _, dc := range fw.AllDeepCalls(up, nil) {
+		cm := dc.Call.Common()
+		args := cm.Args
+		for _, a := range args {
+			fa, ok := a.(*ssa.FieldAddr)
+			if !ok {
+				continue
+			}
+			sty := derefStructOf(fa.X.Type())
+			if sty == nil || !strings.HasSuffix(fa.X.Type().String(), "allowerContext") {
+				continue
+			}
+			switch sty.Field(fa.Field).Name() {
+			case "create", "powerLevels", "joinRule":
+				// the address of the cached content is handed to a routine: it is written through
+				if n := fw.CalleeName(dc.Call); !strings.HasSuffix(n, ".UserLevel") && !strings.HasSuffix(n, ".EventLevel") && !strings.HasSuffix(n, ".NotificationLevel") {
+					bad = fmt.Sprintf("&%s is handed to %s at %s", sty.Field(fa.Field).Name(), n, c.P.Pos(dc.Call.Pos()))
+				}
+			}
+		}
+	}
+	if bad != "" {
+		c.Fail(rule, construct, c.P.Pos(up.Pos()), bad+": the cached object is filled in place, so members the new event does not mention keep the values of the previous one")
+	} else {
+		c.Ok(rule, construct, c.P.Pos(up.Pos()), "")
+	}
+}
+
 // checkUpdate: each cached content is stored only together with its event pointer.
 func checkUpdate(c *fw.Ctx, up *ssa.Function) {
 	rule := "4 update"
 	checkRefreshFailure(c, up)
+	checkNoInPlaceRefresh(c, up)
 	pairs := map[string]string{"create": "createEvent", "powerLevels": "powerLevelsEvent", "joinRule": "joinRuleEvent"}
 	stores := map[string][]*ssa.Store{}
 	region := fw.RegionOf(up, nil)
@@ -279,7 +316,9 @@ func checkUpdate(c *fw.Ctx, up *ssa.Function) {
 						keyed = true
 					case strings.HasSuffix(a, "#0 == nil)") && strings.Contains(a, "(gmsl.AuthEventProvider).") && l.Pos:
 						keyed = true
-					case strings.Contains(a, "recv.") && !strings.Contains(a, "recv."+ev) && !strings.Contains(a, "recv.provider"):
+					case (strings.HasPrefix(a, "*recv.") || strings.HasPrefix(a, "(*recv.")) && !strings.Contains(a, "recv."+ev) && !strings.Contains(a, "recv.provider") && !fw.AtomCallsUnexportedHelper(a):
+						// a direct test of some other field of the context (a "built once" flag);
+						// a call that merely receives a field as an argument is not one
 						other = l.String()
 					}
 				}
